@@ -101,8 +101,12 @@ class Highlighter(object):
 
             if token_type == tokenize.ENDMARKER:
                 # End of source
-                line += "<{}>{}</>".format(self._theme[current_type], _escape(buffer))
-                lines.append(line)
+                if current_type is not None:
+                    line += "<{}>{}</>".format(
+                        self._theme[current_type], _escape(buffer)
+                    )
+                    lines.append(line)
+
                 break
 
             if lineno > current_line:
@@ -413,6 +417,9 @@ class ExceptionTrace(object):
                             code_line = Highlighter(
                                 supports_utf8=io.supports_utf8()
                             ).highlighted_lines(frame.line.strip())[0]
+                        except IndexError:
+                            # The source of the frame is not available
+                            code_line = ""
                         except tokenize.TokenError:
                             code_line = frame.line.strip()
 
